@@ -143,6 +143,88 @@ func c06callbackScenario(c *vt.Ctx, L int, ctrl *sched.Controller) {
 	c.Eval(1)
 }
 
+// c06backpressure: the reply of a finished call cannot be written yet (the transport
+// exerts back-pressure; here the harness holds every Send of the server's end). The
+// slot of that call is free from the moment its handler returned: a request waiting
+// for a slot must start then, not when the reply has finally been written.
+//
+// L slots; L gated single calls fill them, w more calls wait. One running call is
+// released: at the next quiescent point its reply is being held in Send and exactly
+// one waiter must have started (L running again); then the writes are let through and
+// everything is accounted for. Which of the running calls is released varies (rel).
+// While a Send is held the harness sends nothing (the server's mutex is held by the writer).
+func c06backpressure(c *vt.Ctx, L, w, rel int, batchWaiters bool, ctrl *sched.Controller) {
+	peer.Bubble(c, ctrl, func() {
+		hold := make(chan struct{})
+		rig := peer.NewServerRig(c, ctrl, peer.ServerOpts{Concurrency: L, HoldSend: hold})
+		what := fmt.Sprintf("back-pressure: Concurrency %d, %d waiting, running call #%d released while every reply is held", L, w, rel%L)
+		id := 0
+		for i := 0; i < L; i++ {
+			id++
+			rig.Send(peer.Req(fmt.Sprint(id), "g", fmt.Sprintf("run%d", i)))
+		}
+		rig.Settle()
+		if batchWaiters {
+			var ms []string
+			for i := 0; i < w; i++ {
+				id++
+				ms = append(ms, peer.Req(fmt.Sprint(id), "g", fmt.Sprintf("wait%d", i)))
+			}
+			rig.Send("[" + strings.Join(ms, ",") + "]")
+		} else {
+			for i := 0; i < w; i++ {
+				id++
+				rig.Send(peer.Req(fmt.Sprint(id), "g", fmt.Sprintf("wait%d", i)))
+			}
+		}
+		rig.Settle()
+		if got := rig.H.Running(); got != L {
+			c.Failf("%s: %d handlers running after arrival, want %d", what, got, L)
+		}
+		started := func() int {
+			n := 0
+			for i := 0; i < w; i++ {
+				n += rig.Log.Count("h.enter", fmt.Sprintf("wait%d", i))
+			}
+			return n
+		}
+		// exactly one call is released while the transport is held: a second finished call
+		// would have to wait for the server's mutex, which the blocked writer holds, and a
+		// goroutine waiting for a mutex never counts as quiescent
+		for k := 0; k < 1; k++ {
+			rig.H.Release(fmt.Sprintf("run%d", rel%L))
+			rig.Settle() // the reply of that call is now held inside Send
+			wantStarted := min(k+1, w)
+			if got := started(); got != wantStarted {
+				c.Failf("%s: after %d of the running calls returned (their replies still being written), %d waiting calls have started, want %d: a slot is free as soon as its handler has returned",
+					what, k+1, got, wantStarted)
+			}
+			if got, want := rig.H.Running(), min(L, L-(k+1)+w); got != want {
+				c.Failf("%s: after %d of the running calls returned, %d handlers are running, want %d", what, k+1, got, want)
+			}
+			if rig.H.MaxRunning() > L {
+				c.Failf("%s: %d handlers ran at once; Concurrency is %d", what, rig.H.MaxRunning(), L)
+			}
+			c.Count("quiescent_points_with_reply_held", 1)
+		}
+		close(hold) // the reader catches up
+		rig.H.ReleaseAll()
+		rig.Settle()
+		if got := len(rig.Outbound()); got == 0 {
+			c.Failf("%s: nothing was written after the transport was released", what)
+		}
+		if got := int(rig.H.Invocations()); got != L+w {
+			c.Failf("%s: %d handler invocations, want %d", what, got, L+w)
+		}
+		if _, ok := rig.Finish(); !ok {
+			c.Failf("%s: server did not exit after the peer closed", what)
+		}
+		c.Count("handler_runs", int(rig.H.Invocations()))
+		c.Count("events", rig.Log.Len())
+	})
+	c.Eval(1)
+}
+
 func init() {
 	chk := vt.Lookup("C06")
 	if chk == nil {
@@ -204,6 +286,26 @@ func init() {
 				return
 			}
 		}
+		for _, L := range []int{1, 2, 3} {
+			for _, w := range []int{1, 2} {
+				for _, batch := range []bool{false, true} {
+					L, w, batch := L, w, batch
+					id := fmt.Sprintf("W/backpressure/L%d/w%d/batch=%v", L, w, batch)
+					if !yield(vt.Case{ID: id, Run: func(c *vt.Ctx) {
+						for rel := 1; rel <= L; rel++ {
+							c06backpressure(c, L, w, rel, batch, sched.New())
+							c.Distinct(fmt.Sprintf("%s/rel%d", id, rel))
+							if c.Failed() {
+								return
+							}
+						}
+					}}) {
+						return
+					}
+				}
+			}
+		}
 	}
+	chk.Rule += "; (W) every Send of the server's end held by the harness (a transport with back-pressure): L running calls, w waiting, running calls released one by one — at each quiescent point, with the finished call's reply still inside Send, the next waiter must have started"
 	chk.Rule += "; plus (S) Stop with L-1 cancellation-deaf calls and a notification holding all slots and 4 more notifications parked/queued, released one by one, and (P) L handlers blocked inside Server.Callback with further calls waiting — both with every single hook visit parked"
 }
